@@ -21,10 +21,11 @@ class TargetFault(Exception):
 
 
 class Event:
-    __slots__ = ("seq", "thread", "target", "method", "test_id", "data")
+    __slots__ = ("seq", "thread", "target", "method", "test_id", "data", "call")
 
-    def __init__(self, seq, thread, target, method, test_id, data):
+    def __init__(self, seq, thread, target, method, test_id, data, call=None):
         self.seq = seq
+        self.call = call
         self.thread = thread
         self.target = target
         self.method = method
@@ -48,6 +49,7 @@ class World:
         self.pre_hook = None   # called(target, method) before logging
         self.post_hook = None  # called(target, method) after logging
         self.thread_of = lambda: "main"
+        self.call_of = lambda: None   # id of the reporter-side call that is in progress
         self.fault_fired = []
 
     def tick(self):
@@ -132,7 +134,7 @@ class _Base:
             raise TargetFault(f"{self._name}.{method} fault")
         ev = Event(
             w.tick(), w.thread_of(), self._name, method,
-            None if test is None else test_id_of(test), data,
+            None if test is None else test_id_of(test), data, w.call_of(),
         )
         w.events.append(ev)
         self._on_event(ev)
@@ -374,7 +376,7 @@ class TStream(_Base):
         if self._faults is not None and self._faults.check("status"):
             w.fault_fired.append((self._name, "status"))
             raise TargetFault(f"{self._name}.status fault")
-        ev = Event(w.tick(), w.thread_of(), self._name, "status", test_id, data)
+        ev = Event(w.tick(), w.thread_of(), self._name, "status", test_id, data, w.call_of())
         w.events.append(ev)
         if self._mutate and isinstance(test_tags, set):
             # a hostile sibling: mutates what it received
